@@ -14,6 +14,7 @@ pub mod s_dp;
 pub mod s_fn;
 pub mod s_inj;
 pub mod s_filter;
+pub mod s_exec;
 
 use common::*;
 use std::io::{BufRead, Write};
@@ -30,8 +31,12 @@ fn streams() -> Vec<(&'static str, GenFn, EvalFn)> {
         ("rules", s_rules::gen, s_rules::eval),
         ("inj", s_inj::gen, s_inj::eval),
         ("ofint", s_inj::gen_ofint, s_inj::eval_ofint),
+        ("injbase", s_inj::gen_base, s_inj::eval_base),
         ("filter", s_filter::gen, s_filter::eval),
         ("filterx", s_filter::genx, s_filter::evalx),
+        ("c09", s_exec::gen_c09, s_exec::eval_c09),
+        ("c01", s_exec::gen_c01, s_exec::eval_c01),
+        ("clip", s_exec::gen_clip, s_exec::eval_clip),
         ("fn", s_fn::gen, s_fn::eval),
         ("fnimg", s_fn::gen_img, s_fn::eval_img),
         ("dpevent", s_dp::gen_event_case, s_dp::eval_event_case),
